@@ -13,6 +13,9 @@
 (*        "mielens_quad3x": zero aberration under NON-default accuracy      *)
 (*        options equals the unaberrated theory under the same options      *)
 (*        (pairwise relation SameOptions, exact)                            *)
+(*   "lens_from_parameters", "mielens_from_parameters": the theory object   *)
+(*        obtained with from_parameters({lens_angle}) from one built for    *)
+(*        another angle equals the constructor's (exact)                    *)
 (* Mode "scan" (LensRoutes_scan.cfg): one sphere, a sequence of requests    *)
 (* that differ in acceptance angle / theory / options, all in one           *)
 (* interpreter; every answer must be the fresh-process answer of that       *)
